@@ -12,6 +12,8 @@ import (
 	"bytes"
 	"fmt"
 
+	cc "gitlab.com/gomidi/midi/v2/internal/verifh/conccases"
+	cp "gitlab.com/gomidi/midi/v2/internal/verifh/concpairs"
 	"gitlab.com/gomidi/midi/v2/internal/verifh/engine"
 	"gitlab.com/gomidi/midi/v2/internal/verifh/refsmf"
 	sp "gitlab.com/gomidi/midi/v2/internal/verifh/smfspace"
@@ -149,6 +151,12 @@ func plans() []sp.Plan {
 func main() {
 	ctx = engine.Start("C01", "model_checking")
 	if ctx.ReplayPath != "" {
+		if cp.Replay(ctx, ctx.LoadReplay(), "smf-write", cc.SMFWrite()) {
+			ctx.Finish("replay")
+		}
+		if cp.Replay(ctx, ctx.LoadReplay(), "smf-read", cc.SMFRead()) {
+			ctx.Finish("replay")
+		}
 		replay()
 		return
 	}
@@ -170,6 +178,11 @@ func main() {
 		}
 	}
 	const sweepParts = 8
+	ctx.Jobs("concurrent", 1, func(int) {
+		cp.Litmus(ctx)
+		cp.Check(ctx, "smf-write", cc.SMFWrite())
+		cp.Check(ctx, "smf-read", cc.SMFRead())
+	})
 	ctx.Jobs("search", len(jobs), func(j int) { sp.RunPlanCfgShard(ctx, jobs[j].p, jobs[j].cfg, jobs[j].op, check) })
 	ctx.Jobs("sweep", sweepParts, func(j int) { sweep(j, sweepParts) })
 
